@@ -41,7 +41,7 @@ Vocab == <<
     Wd("word"), Wd("Hello"), Wd("x"), Wd("naive"), Wd("42"), Wd("3.14"), Wd("e.g."), Wd("etc."), Wd("a.b"), Wd("www.example.com"),
     Wd("1990s"), Wd("snake_case"), Wd("a_b_c"), Wd("file_name.txt"), Wd("don't"), Wd("\"quoted\""), Wd("semi;colon"), Wd("co:lon"),
     Wd("comma,"), Wd("what?"), Wd("wow!"), Wd("(paren)"), Wd("1.5"), Wd("v2.0.1"), Wd("100%"), Wd("user@example.com"), Wd("a/b"),
-    Wd("C:\\dir"), Wd("x=y"), Wd("a+b"), Wd("key=value"), Wd("AT&T"), Wd("R&D"), Wd("&copy"), Wd("a&b"), Wd("x^2"), Wd("$5"), Wd("$x$"),
+    Wd("C:\\dir"), Wd("x=y"), Wd("a+b"), Wd("key=value"), Wd("AT&T"), Wd("R&D"), Wd("&copy"), Wd("a&b"), Wd("&ampere;"), Wd("&notit;"), Wd("&xyz;"), Wd("x&y;z"), Wd("x^2"), Wd("$5"), Wd("$x$"),
     Wd("#hashtag"), Wd("C#"), Wd("a#b"), Wd("it's"), Wd("{braces}"), Wd("semi-colon"), Wd("well-known"), Wd("a--b"), Wd("x>y"), Wd("->"),
     Sb("-"), Sb("+"), Sb("#"), Sb("##"), Sb(">"), Sb(">>"), In("="), In("=="), Sb("--"), Sb("1."), Sb("2."), Sb("1)"), Sb("10."), Sb("007."),
     Sb("<"), Sb("<3"), Sb("<="), Sb("<-"), Sb("<>"), Sb("(1)"), Sb("(a)"),
